@@ -5,7 +5,7 @@ from verif.core import Infra
 META = dict(
     technique="TLC exhaustive model check of HeaderMap.tla (RequestHeader/ResponseHeader as ordered multimap with single-valued special slots and accumulating cookies, normalisation on/off; frame condition 'an operation on one name never changes the values or order of another' as an action property) + TLC-generated behaviours with the spec's observer results after every step replayed on the real header objects (B1)",
     design_ref="DESIGN.md §4 C29",
-    text="HeaderMap.tla is model-checked for both header kinds and both normalisation modes (12 configurations: ordinary names in several spellings with Connection/Content-Length/Transfer-Encoding, slots, cookies and trailers). HeaderMapGen adds a history variable; TLC enumerates ALL operation sequences of length N over several operation alphabets (and seeded random longer ones over the whole alphabet) and writes each with All, Peek/PeekAll per queried spelling, typed getters, cookies and the expected read-back after every step. The Go harness performs each sequence on a real RequestHeader/ResponseHeader (random API variant per call) and compares Peek, PeekBytes, PeekAll, PeekKeys, All, VisitAll, Len, typed getters, cookies, Write->Read back (non-framing fields in order) and CopyTo with the spec after every step.",
+    text="HeaderMap.tla is model-checked for both header kinds and both normalisation modes (12 configurations: ordinary names in several spellings with Connection/Content-Length/Transfer-Encoding, slots, cookies and trailers). HeaderMapGen adds a history variable; TLC enumerates ALL operation sequences of length N over several operation alphabets (and seeded random longer ones over the whole alphabet) and writes each with All, Peek/PeekAll per queried spelling, typed getters, cookies and the expected read-back after every step. One profile starts every sequence by loading the object from the wire (Read of a message with special and ordinary fields; also Read into another object + CopyTo). The Go harness performs each sequence on a real RequestHeader/ResponseHeader (random API variant per call), once comparing all observers after every step and once more with the observers run only after the last step (observers have side effects such as lazy cookie collection), and compares Peek, PeekBytes, PeekAll, PeekKeys, All, VisitAll, Len, typed getters, cookies, Write->Read back (non-framing fields in order) and CopyTo with the spec after every step.",
     note="Trusted: TLC, the Go toolchain, the JSON plumbing. Modelling decisions: for single-valued special names an empty value and an absent field are not distinguished in PeekAll; with normalisation off a non-canonical spelling of a special name is only used in profile 5 (known finding F-C29-2); values are benign tokens (no CR/LF: that is C05). Sequences longer than N are sampled (seeded), not enumerated.",
 )
 
@@ -37,12 +37,12 @@ def run(ctx):
     # VERIF_C29_SMOKE=1: reduced plan (no MC, fewer behaviours) for trying mutants quickly; never used by the manifest
     smoke = os.environ.get("VERIF_C29_SMOKE") == "1"
     if not smoke:
-        ctx.tlc_mc("data", "HeaderMapMC", consts={"MAXH": ctx.pick(2, 3)}, workers=4, timeout=1500)
+        ctx.tlc_mc("data", "HeaderMapMC", consts={"MAXH": ctx.pick(2, 3), "LOAD": ctx.pick("FALSE", "TRUE")}, workers=4, timeout=1500)
     path = os.path.join(ctx.scratch, "c29_behaviours.ndjson")
     out = open(path, "w")
     # exhaustive: every operation sequence of length N over the profile's op alphabet,
     # for request and response headers, normalisation on and off
-    plans = ctx.pick([(4, 1), (2, 3), (2, 4)], [(4, 1), (2, 2), (3, 3), (3, 4)])
+    plans = ctx.pick([(4, 1), (2, 3), (2, 4), (3, 6)], [(4, 1), (2, 2), (3, 3), (3, 4), (4, 6)])
     if smoke:
         plans = [(2, 2)]
     total_exh = 0
